@@ -39,5 +39,5 @@ def plan(tier, seed, scale=1.0):
     specs = _sim_plan(tier, seed, scale)
     q = tier == "quick"
     for c in range(4):
-        specs.append(dict(kind="real", shard=f"real{c}", shard_no=c, n=max(1, int((3 if q else 75) * scale)), budget_s=100 if q else 1500, timeout_s=280 if q else 2400, prop="C01"))
+        specs.append(dict(kind="real", phase=1, shard=f"real{c}", shard_no=c, n=max(1, int((3 if q else 75) * scale)), budget_s=100 if q else 1500, timeout_s=280 if q else 2400, prop="C01"))
     return specs
